@@ -173,6 +173,25 @@ pub mod opaque_eq {
     }
 }
 
+/// `no_deps` module: visible functions WITHOUT any parameter are methods too (the receiver is inserted)
+#[entrait(pub Settings, no_deps)]
+pub mod settings {
+    pub const fn default_port() -> u16 {
+        8080
+    }
+    pub(crate) fn app_name() -> &'static str {
+        "app"
+    }
+    pub fn port_or_default(port: Option<u16>) -> u16 {
+        match port {
+            Some(p) => p,
+            None => default_port(),
+        }
+    }
+    pub async fn nothing() {}
+    fn private_no_param() {}
+}
+
 /// a path-restricted trait visibility in module mode
 #[entrait(pub(in crate::c08_modules) PathVis)]
 pub mod path_vis {
